@@ -46,7 +46,7 @@ def run(tier, seed, replay=None):
                         if not (a in ("exms", "exs") and any(o["o"] in ("exms", "exs") for o in ops[-2:])):
                             ops.append({"o": a, "v": rnd.choice([1, 2])})
                     nid = len(ops) + 1
-                    ops.append({"o": "key", "v": nid, "parts": 2 if rnd.random() < 0.06 else 1})
+                    ops.append({"o": "key", "v": nid, "parts": rnd.choice([2, 3]) if rnd.random() < 0.06 else 1})
                 elif r < 0.65:
                     ops.append({"o": "sel", "v": rnd.choice([0, 1, 2])})
                 else:
@@ -63,6 +63,11 @@ def run(tier, seed, replay=None):
                 nchunk += 1
             files.append({"id": i, "version": rnd.choice([3, 5, 6, 7, 8, 9, 9, 9]), "ops": ops, "float": False,
                           "chunked": chunked and nchunk <= (8 if thorough else 2), "big": rnd.choice([0, 0, 16383, 16384]) if i % 9 == 0 else 0})
+        # one hash cut into two and one cut into three records, always, each followed by further keys
+        for j, parts in enumerate((2, 3, 4) if thorough else (2, 3)):
+            files.append({"id": 90000 + j, "version": 9, "float": False, "chunked": True, "big": 0,
+                          "ops": [{"o": "sel", "v": 1}, {"o": "exms", "v": 1}, {"o": "freq", "v": 2}, {"o": "key", "v": 3, "parts": parts},
+                                  {"o": "key", "v": 4, "parts": 1}, {"o": "idle", "v": 1}, {"o": "key", "v": 6, "parts": 1}]})
         # module-aux blocks that contain a float sub-opcode
         for j in range(6):
             files.append({"id": 100000 + j, "version": 9, "float": True, "chunked": False, "big": 0,
